@@ -183,10 +183,24 @@ def view(tr):
     return {"id": tr["id"], "events": evs, "expect": tr["meta"]["hist"]}
 
 
+def inductive(run):
+    """GuardInd.tla: the contract invariants are INDUCTIVE for the unbounded next-state relation (no bound on the length of the
+    history, nesting depth <= 3): base case Init => IndInv, step: every successor of every state satisfying IndInv satisfies it."""
+    for cfg, what in (("GuardIndBase.cfg", "base case Init => IndInv"), ("GuardInd.cfg", "inductive step over all states satisfying IndInv")):
+        res = tlc.run("GuardInd", cfg=cfg, workers=8, heap="6g")
+        run.add_tlc(res, "GuardInd.tla: " + what)
+        if res.violated:
+            run.violation({"stage": "design", "invariant": res.violated, "tlc_state": res.state,
+                           "summary": "GuardInd.tla: %s fails (%s): the guard invariants are not inductive in Guard.tla" % (what, res.violated)})
+            return
+    run.notes.append("Guard.tla invariants (NestConj, OneBound, clean at top level, saved == state at entry) shown inductive with TLC: histories of any length, depth <= 3")
+
+
 def main(tier):
     run = common.Run("C08", tier)
     maxlen, maxdepth = (5, 3) if tier == "quick" else (7, 4)
     check_design(run, maxlen, maxdepth)
+    inductive(run)
     hists = gen_histories(run, maxlen if tier == "quick" else 7, maxdepth)
     # the same machinery with all four exception kinds (shorter histories: the kind multiplies the space)
     hists += [h for h in gen_histories(run, 4 if tier == "quick" else 5, maxdepth, kinds="{0, 1, 2, 3}") if any(x["a"] == "raise" and x["c"] >= 2 for x in h)]
